@@ -55,19 +55,80 @@ package nfa
 //@   requires n != nil
 //@   ensures result == n.startAnchored
 
-// Recursive exploration: contract ASSUMED (bodies are recursive over the NFA graph; see DESIGN 6/C13).
-//@ trusted func (*BoundedBacktracker).backtrackFindWithState
-//@   requires wfBT(b) && btStateOK(b, st) && st.SpanStart <= pos && pos <= st.SpanStart + st.InputLen
+// NFA state accessors. (*NFA).State returns an interior pointer &n.states[id]; it is modelled as an opaque
+// reference to an immutable State object (ASSUMED: NFA states are never written after compilation).
+//@ trusted func (*NFA).State
+//@   requires n != nil
+
+//@ func (*State).Kind
+//@   props C07
+//@   requires s != nil
+//@ func (*State).ByteRange
+//@   props C07
+//@   requires s != nil
+//@ func (*State).Split
+//@   props C07
+//@   requires s != nil
+//@ func (*State).Epsilon
+//@   props C07
+//@   requires s != nil
+//@ func (*State).Transitions
+//@   props C07
+//@   requires s != nil
+//@ func (*State).Capture
+//@   props C07
+//@   requires s != nil
+//@ func (*State).Look
+//@   props C07
+//@   requires s != nil
+//@ func (*State).RuneAny
+//@   props C07
+//@   requires s != nil
+//@ func (*State).RuneAnyNotNL
+//@   props C07
+//@   requires s != nil
+
+//@ func isWordByte
+//@   props C07 C14
+//@   ensures result == ((b >= 'a' && b <= 'z') || (b >= 'A' && b <= 'Z') || (b >= '0' && b <= '9') || b == '_')
+
+//@ func checkLookAssertion
+//@   props C07 C14
+//@   requires 0 <= pos && pos <= len(haystack)
+
+//@ func runeWidth
+//@   props C07
+//@   arith mixed
+//@   ensures 0 <= result && result <= 4 && result <= len(b) && (len(b) > 0 ==> result >= 1)
+
+// Recursive exploration of the NFA graph: verified against their own contracts (partial correctness: the
+// recursion itself is not shown to terminate here; the visited table bounds it, see C05 in DESIGN).
+//@ spec func btPre(b *BoundedBacktracker, st *BacktrackerState, haystack []byte, pos int) bool = wfBT(b) && b.nfa != nil && btStateOK(b, st) && len(haystack) == st.SpanStart + st.InputLen && st.SpanStart <= pos && pos <= len(haystack)
+
+//@ func (*BoundedBacktracker).backtrackFindWithState
+//@   props C07 C13
+//@   requires btPre(b, st, haystack, pos)
 //@   modifies st.Visited[*]
 //@   ensures stampsOK(st) && (result == -1 || (pos <= result && result <= len(haystack)))
-//@ trusted func (*BoundedBacktracker).backtrackFindLongestWithState
-//@   requires wfBT(b) && btStateOK(b, st) && st.SpanStart <= pos && pos <= st.SpanStart + st.InputLen
+//@   loop 1: invariant stampsOK(st)
+//@   loop 1: invariant -1 <= rangeindex && rangeindex <= rangelen && rangelen <= 281474976710656
+//@   loop 1: decreases rangelen - rangeindex
+//@ func (*BoundedBacktracker).backtrackFindLongestWithState
+//@   props C07 C13
+//@   requires btPre(b, st, haystack, pos)
 //@   modifies st.Visited[*]
 //@   ensures stampsOK(st) && (result == -1 || (pos <= result && result <= len(haystack)))
-//@ trusted func (*BoundedBacktracker).backtrackWithState
-//@   requires wfBT(b) && btStateOK(b, st) && st.SpanStart <= pos && pos <= st.SpanStart + st.InputLen
+//@   loop 1: invariant stampsOK(st)
+//@   loop 1: invariant -1 <= rangeindex && rangeindex <= rangelen && rangelen <= 281474976710656
+//@   loop 1: decreases rangelen - rangeindex
+//@ func (*BoundedBacktracker).backtrackWithState
+//@   props C07 C13
+//@   requires btPre(b, st, haystack, pos)
 //@   modifies st.Visited[*]
 //@   ensures stampsOK(st)
+//@   loop 1: invariant stampsOK(st)
+//@   loop 1: invariant -1 <= rangeindex && rangeindex <= rangelen && rangelen <= 281474976710656
+//@   loop 1: decreases rangelen - rangeindex
 
 //@ func (*BoundedBacktracker).SearchAtWithState
 //@   props C13 C07 C20
